@@ -109,6 +109,12 @@ func (c *Ctx) ruleA4(rule string, fn *ssa.Function, isWorker func(*ssa.Call) boo
 				perIter := cell != nil && fo.loop.Blocks[cell.Block()] && cell.Parent() == g.Parent()
 				c.Check(rule, key+"/element", perIter, fo.worker.Pos(), "goroutine executes the element of %s through a per-iteration copy (a direct capture of the loop variable is shared by all goroutines under go 1.13 semantics)", x.Describe(fo.ranged))
 			}
+			// one goroutine per element: the go statement is not under a further condition inside its loop
+			if fo.loop != nil {
+				if gs := x.GuardsOfInLoop(g.Block()); len(gs) > 0 {
+					c.Check(rule, key+"/every-element", false, g.Pos(), "the goroutine is started conditionally inside the fan-out loop (%s): some elements would not run", x.describeGuards(gs))
+				}
+			}
 			// Done on all paths
 			var dones []ssa.Instruction
 			eachInstr(lit, func(i2 ssa.Instruction) {
